@@ -51,6 +51,7 @@ class Ctx:
         e['VERIF_REPLAY_DIR'] = self.replay_dir
         e['VERIF_EVIDENCE_PART'] = os.path.join(self.scratch, 'ev-%s.json' % part)
         e['VERIF_NCPU'] = str(self.ncpu)
+        e['VERIF_PART_NAME'] = part
         if extra:
             e.update(extra)
         return e
